@@ -34,8 +34,11 @@ def variant_string(lr, kind):
     return s
 
 class G:
-    def __init__(self, rng, vocab=None, depth=4, collide=False, lit_rng=None, vary_nums=False, vary_bools=False):
+    def __init__(self, rng, vocab=None, depth=4, collide=False, lit_rng=None, vary_nums=False, vary_bools=False, fields=None, ns_tokens=False):
         self.r = rng
+        self.fields = fields or USER_FIELDS
+        self.ns_tokens = ns_tokens
+        self.ns_names = []
         self.lr = lit_rng
         self.vary_nums, self.vary_bools = vary_nums, vary_bools
         self.p = Planted()
@@ -133,9 +136,9 @@ class G:
         if k == 'arrdoc': return [{self.field(): self.literal(where + '[].doc', depth + 2)} for _ in range(self.r.randint(0, 3))]
 
     def field(self):
-        f = self.r.choice(USER_FIELDS)
+        f = self.r.choice(self.fields)
         if self.r.random() < 0.15:
-            f = f + '.' + self.r.choice(USER_FIELDS)
+            f = f + '.' + self.r.choice(self.fields)
         if self.collide and self.r.random() < 0.3:
             f = self.r.choice(self.vocab.get('argnames', ['index']))
         self.p.names.add(f)
@@ -144,6 +147,14 @@ class G:
     def name(self):
         """an operational name (output field, index, ...): neutral"""
         return self.p.core(False)
+
+    def nsname(self):
+        """a collection / database name in a namespace-bearing stage argument"""
+        if not self.ns_tokens: return self.name()
+        self.p.n += 1
+        n = 'Nq%dqN' % self.p.n
+        self.ns_names.append(n)
+        return n
 
     def fieldref(self):
         return '$' + self.field()
@@ -273,17 +284,17 @@ class G:
         if k == '$geoNear': return {'$geoNear': {'near': {'type': 'Point', 'coordinates': [self.s_number(w), self.s_number(w)]}, 'distanceField': self.name(), 'maxDistance': self.s_number(w), 'query': self.filter(w + '.query', depth + 1), 'spherical': True}}
         if k == '$setWindowFields': return {'$setWindowFields': {'partitionBy': self.expr(w, depth + 1), 'sortBy': {self.field(): RawNum('1')}, 'output': {self.name(): {'$sum': self.expr(w, depth + 1), 'window': {'documents': ['unbounded', 'current']}}}}}
         if k == '$documents': return {'$documents': [{self.field(): self.literal(w, depth + 1)} for _ in range(self.r.randint(0, 2))]}
-        if k == '$out': return {'$out': self.name()}
-        if k == '$outobj': return {'$out': {'db': self.name(), 'coll': self.name()}}
-        if k == '$merge': return {'$merge': {'into': self.name(), 'on': self.field(), 'whenMatched': self.r.choice(['merge', 'replace', 'keepExisting']), 'whenNotMatched': 'insert'}}
-        if k == '$mergepipe': return {'$merge': {'into': {'db': self.name(), 'coll': self.name()}, 'let': {self.name(): self.expr(w, depth + 1)}, 'whenMatched': self.update_pipeline(w + '.whenMatched', depth + 1)}}
+        if k == '$out': return {'$out': self.nsname()}
+        if k == '$outobj': return {'$out': {'db': self.nsname(), 'coll': self.nsname()}}
+        if k == '$merge': return {'$merge': {'into': self.nsname(), 'on': self.field(), 'whenMatched': self.r.choice(['merge', 'replace', 'keepExisting']), 'whenNotMatched': 'insert'}}
+        if k == '$mergepipe': return {'$merge': {'into': {'db': self.nsname(), 'coll': self.nsname()}, 'let': {self.name(): self.expr(w, depth + 1)}, 'whenMatched': self.update_pipeline(w + '.whenMatched', depth + 1)}}
         if k == '$densify': return {'$densify': {'field': self.field(), 'range': {'step': RawNum('1'), 'unit': 'hour', 'bounds': [self.s_date(w), self.s_date(w)]}}}
         if k == '$fill': return {'$fill': {'sortBy': {self.field(): RawNum('1')}, 'output': {self.field(): {'value': self.expr(w, depth + 1)}}}}
-        if k == '$lookup': return {'$lookup': {'from': self.name(), 'localField': self.field(), 'foreignField': self.field(), 'as': self.name()}}
-        if k == '$lookuppipe': return {'$lookup': {'from': self.name(), 'let': {self.name(): self.expr(w, depth + 1)}, 'pipeline': self.pipeline(w + '.pipeline', depth + 1), 'as': self.name()}}
-        if k == '$graphLookup': return {'$graphLookup': {'from': self.name(), 'startWith': self.expr(w, depth + 1), 'connectFromField': self.field(), 'connectToField': self.field(), 'as': self.name(), 'maxDepth': RawNum('3'), 'restrictSearchWithMatch': self.filter(w + '.restrict', depth + 1)}}
-        if k == '$unionWith': return {'$unionWith': {'coll': self.name(), 'pipeline': self.pipeline(w + '.pipeline', depth + 1)}}
-        if k == '$unionWithstr': return {'$unionWith': self.name()}
+        if k == '$lookup': return {'$lookup': {'from': self.nsname(), 'localField': self.field(), 'foreignField': self.field(), 'as': self.name()}}
+        if k == '$lookuppipe': return {'$lookup': {'from': self.nsname(), 'let': {self.name(): self.expr(w, depth + 1)}, 'pipeline': self.pipeline(w + '.pipeline', depth + 1), 'as': self.name()}}
+        if k == '$graphLookup': return {'$graphLookup': {'from': self.nsname(), 'startWith': self.expr(w, depth + 1), 'connectFromField': self.field(), 'connectToField': self.field(), 'as': self.name(), 'maxDepth': RawNum('3'), 'restrictSearchWithMatch': self.filter(w + '.restrict', depth + 1)}}
+        if k == '$unionWith': return {'$unionWith': {'coll': self.nsname(), 'pipeline': self.pipeline(w + '.pipeline', depth + 1)}}
+        if k == '$unionWithstr': return {'$unionWith': self.nsname()}
         if k == '$facet': return {'$facet': {self.name(): self.pipeline(w, depth + 1) for _ in range(self.r.randint(1, 2))}}
 
     def pipeline(self, where, depth=0):
@@ -403,11 +414,12 @@ def dumps(v):
 DBS = ['mydb', 'app_db', 'déb', 'shop']
 COLLS = ['users', 'orders.archive', 'cöll', 'system.profile', '$cmd', 'events']
 
-def command_line(rng, vocab=None, collide=False, depth=4, lit_rng=None, vary_nums=False, vary_bools=False):
+def command_line(rng, vocab=None, collide=False, depth=4, lit_rng=None, vary_nums=False, vary_bools=False, fields=None, ns_tokens=False, db=None, coll=None, plan=None):
     """One grammar-generated log line. Returns (bytes, info). With lit_rng the CONTENTS of the sensitive literals are
     re-drawn from it within their lexical class while every structural choice still comes from rng."""
-    g = G(rng, vocab, depth=depth, collide=collide, lit_rng=lit_rng, vary_nums=vary_nums, vary_bools=vary_bools)
-    db, coll = rng.choice(DBS), rng.choice(COLLS)
+    g = G(rng, vocab, depth=depth, collide=collide, lit_rng=lit_rng, vary_nums=vary_nums, vary_bools=vary_bools, fields=fields, ns_tokens=ns_tokens)
+    db0, coll0 = rng.choice(DBS), rng.choice(COLLS)
+    db, coll = (db or db0), (coll or coll0)
     placement = rng.choice(['command', 'command', 'command', 'cmd', 'originatingCommand', 'both', 'write'])
     comp = rng.choice(['COMMAND', 'COMMAND', 'QUERY', 'WRITE', 'slow'])
     attr = {'type': 'command', 'ns': db + '.' + coll, 'appName': 'app'}
@@ -431,7 +443,8 @@ def command_line(rng, vocab=None, collide=False, depth=4, lit_rng=None, vary_num
                 attr['command'] = {'getMore': RawNum('77'), 'collection': coll, '$db': db}
     ip = '10.%d.%d.%d:%d' % (rng.randint(0, 255), rng.randint(0, 255), rng.randint(1, 254), rng.randint(1024, 65000))
     attr['remote'] = ip
-    attr['planSummary'] = rng.choice(['COLLSCAN', 'IXSCAN { uf_a: 1 }', 'IXSCAN { name: 1, age: -1 }', 'IDHACK'])
+    ps0 = rng.choice(['COLLSCAN', 'IXSCAN { uf_a: 1 }', 'IXSCAN { name: 1, age: -1 }', 'IDHACK'])
+    attr['planSummary'] = plan if plan is not None else ps0
     attr['keysExamined'] = RawNum(str(rng.randint(0, 10 ** 6)))
     attr['durationMillis'] = RawNum(str(rng.randint(0, 10 ** 5)))
     entry = {'t': {'$date': '2019-01-02T03:04:05.678+00:00'}, 's': 'I', 'c': 'COMMAND' if comp == 'slow' else comp,
@@ -440,7 +453,7 @@ def command_line(rng, vocab=None, collide=False, depth=4, lit_rng=None, vary_num
     if comp == 'slow':
         entry['c'] = 'NETWORK' if rng.random() < 0.3 else 'COMMAND'
         entry['msg'] = 'Slow query'
-    info = {'sensitive': g.p.sensitive, 'sens_numbers': g.p.sens_numbers, 'names': sorted(g.p.names), 'verbs': verbs,
+    info = {'ns_names': g.ns_names, 'sensitive': g.p.sensitive, 'sens_numbers': g.p.sens_numbers, 'names': sorted(g.p.names), 'verbs': verbs,
             'placement': placement, 'ip': ip, 'db': db, 'coll': coll, 'stats': g.stats}
     return dumps(entry).encode('utf-8'), info
 
@@ -449,7 +462,8 @@ def anyjson_tree(rng, vocab, depth=0, maxdepth=5):
     ks = ['str', 'str', 'num', 'bool', 'null', 'obj', 'obj', 'arr', 'emptyobj', 'emptyarr', 'dollar']
     if depth >= maxdepth: ks = ['str', 'num', 'bool', 'null', 'emptyobj', 'emptyarr', 'dollar']
     k = rng.choice(ks)
-    if k == 'str': return rng.choice(['x', '', 'a@b.co', 'héllo', '2024-01-01T00:00:00Z', 'REDACTED', '0123456789abcdef01234567', 'a"b\\c\n', '\U0001F600', '<tag>&'])
+    if k == 'str': return rng.choice(['x', '', 'a@b.co', 'héllo', '2024-01-01T00:00:00Z', 'REDACTED', '0123456789abcdef01234567', 'a"b\\c\n', '\U0001F600', '<tag>&',
+                                      '\x1b[31mred\x1b[0m', 'bell\x07', 'vt\x0b ff\x0c bs\x08', 'del\x7f', 'tag\U000e0001x', 'nbsp\u00a0 ls\u2028 ps\u2029', '\ufeffbom', 'nul\x00z'])
     if k == 'dollar': return rng.choice(['$name', '$$ROOT', '$', '$a.b', '$eq', '$limit'])
     if k == 'num': return RawNum(rng.choice(['0', '1', '-1', '1.5', '1e10', '-0', '12345678901234567890', '0.1e-7', '1E+2', '9007199254740993']))
     if k == 'bool': return rng.choice([True, False])
